@@ -31,7 +31,7 @@ NAMES = ["X", "Y", "Z", "H", "S", "T", "P", "CX", "CZ", "CP", "CCX", "SWAP", "BA
 
 
 def budget(tier):
-    return 1500 if tier == "quick" else 40000
+    return 1500 if tier == "quick" else 150000
 
 
 @st.composite
